@@ -66,6 +66,7 @@ def run(tier):
         plan = [("G(0..3) x A2, P in {1,2,3}, layouts {id,rev}, bound 1", [["--n", n, "--alpha", "A2", "--P", "1,2,3", "--bound", 1] for n in range(0, 4)]),
                 ("G(4) x A2, P in {1,2,3}, layouts {id,rev}, bound 1", [["--n", 4, "--alpha", "A2", "--P", "1,2,3", "--bound", 1]]),
                 ("G(4) x A2 with reversed edge orientation, P in {2,3}, bound 1", [["--n", 4, "--alpha", "A2", "--P", "2,3", "--bound", 1, "--orient", 1]]),
+                ("G(4) x A2 with reversed / interleaved edge insertion order, P in {2,3}, bound 1", [["--n", 4, "--alpha", "A2", "--P", "2,3", "--bound", 1, "--eorder", o] for o in (1, 2)]),
                 ("G(4) x A2, P=2, all m! layouts for m<=4 / adjacent transpositions, bound 1", [["--n", 4, "--alpha", "A2", "--P", "2", "--bound", 1, "--layouts", 1]]),
                 ("G(4) x U, P in {4,5,7} (more ranks than vertices/candidates), bound 1", [["--n", 4, "--alpha", "U", "--P", "4,5,7", "--bound", 1]]),
                 ("G(5) x U, P in {2,3}, bound 1", [["--n", 5, "--alpha", "U", "--P", "2,3", "--bound", 1]]),
